@@ -194,7 +194,13 @@ fn eval_microsecond<'a>(args: &[Option<Value<'a>>]) -> Option<Value<'a>> {
     let datetime = get_text(args.first()?)?;
     let time_part = datetime.split(' ').nth(1).unwrap_or(&datetime);
     if let Some(dot_pos) = time_part.find('.') {
-        let micros: i64 = time_part[dot_pos + 1..].parse().unwrap_or(0);
+        // the fraction is a decimal fraction of a second: ".99" is 990000 microseconds
+        let digits: String = time_part[dot_pos + 1..]
+            .chars()
+            .take_while(|c| c.is_ascii_digit())
+            .take(6)
+            .collect();
+        let micros: i64 = format!("{:0<6}", digits).parse().unwrap_or(0);
         Some(Value::Int(micros))
     } else {
         Some(Value::Int(0))
